@@ -25,41 +25,90 @@ func main() { drv.Main("mt", mtDriver) }
 //	ids       class / token ids are sha256 hashes; they are named d1, d2, ... / m1, m2, ...
 //	          in order of first appearance (opaque ids; MT.tla generates the same names
 //	          from the two sequences).  Unknown names are sent as they are (no such object).
-//	amounts   real uint64  a*2^63 + v  (a in 0..2, |v| < 2^27)  <->  model  a*2^28 + v;
-//	          maxU = 2*2^28 - 1 is the image of 2^64-1.  Anything else is "inexact"
-//	          (counted in the state; the trace is then not a faithful image).
-//	          ev.amtReal carries the real amount as a decimal string.
+//	amounts   per-history base B = 2^base (driver cfg base=31|32|53|62|63, default 63):
+//	          real uint64  a*B + v  (|v| < H/2)  <->  model  a'*H + v, with q = 2^64/B,
+//	          M = min(q, 2048), H = 2^29/M, and maxU = M*H - 1 = 2^29 - 1 the image of 2^64-1.
+//	            q <= 2048 (base 53, 62, 63): a' = a — the map is the ring homomorphism of
+//	              {a*B+v} in Z/2^64 onto Z/(M*H): exact for +, -, comparisons, wrap-around.
+//	            q >  2048 (base 31, 32): only two zones of a are representable: the low zone
+//	              a < 1024 (a' = a) and the high zone a > q-1024 (a' = M-(q-a), values within
+//	              1024*B of 2^64); exact as long as no value falls into the gap between them
+//	              (the drivers keep total supplies below 1024*B or within 1024*B of 2^64).
+//	          Anything else is "inexact" (counted in the state; the trace is then not a
+//	          faithful image).  ev.amtReal carries the real amount as a decimal string.
 //	data      abstract string <-> bytes; "keep" <-> "[do-not-modify]"
-const (
-	keep   = "keep"
-	hModel = int64(1) << 28
-	vLimit = int64(1) << 27
-	maxUM  = 2*hModel - 1
-)
+const keep = "keep"
 
-var hReal = new(big.Int).Lsh(big.NewInt(1), 63)
+// scale is the amount map of one history.
+type scale struct {
+	base  int      // log2 of B
+	b     *big.Int // B
+	q     *big.Int // 2^64 / B
+	h, m  int64    // model unit H, model modulus M (in units of H)
+	gap   int64    // 0: a' = a; else size of each representable zone of a
+	vLim  int64
+	maxUM int64
+}
+
+func newScale(base int) *scale {
+	if base < 31 || base > 63 {
+		panic(fmt.Sprintf("mt: base=%d not in 31..63", base))
+	}
+	sc := &scale{base: base, b: new(big.Int).Lsh(big.NewInt(1), uint(base)), q: new(big.Int).Lsh(big.NewInt(1), uint(64-base))}
+	sc.m = 2048
+	if sc.q.IsInt64() && sc.q.Int64() <= 2048 {
+		sc.m = sc.q.Int64()
+	} else {
+		sc.gap = 1024
+	}
+	sc.h = (int64(1) << 29) / sc.m
+	sc.vLim = sc.h / 2
+	sc.maxUM = sc.m*sc.h - 1
+	return sc
+}
 
 // toModel maps a real amount to its model image.
-func toModel(x uint64) (int64, bool) {
+func (sc *scale) toModel(x uint64) (int64, bool) {
 	bx := new(big.Int).SetUint64(x)
-	a := new(big.Int).Add(bx, new(big.Int).Lsh(big.NewInt(1), 62))
-	a.Rsh(a, 63)
-	v := new(big.Int).Sub(bx, new(big.Int).Mul(a, hReal))
-	if !v.IsInt64() || v.Int64() >= vLimit || v.Int64() <= -vLimit {
-		// not of the form a*2^63 + small: keep the order of magnitude, flag it
-		return a.Int64() * hModel, false
+	a := new(big.Int).Add(bx, new(big.Int).Rsh(sc.b, 1))
+	a.Div(a, sc.b) // a in 0..q
+	v := new(big.Int).Sub(bx, new(big.Int).Mul(a, sc.b))
+	ok := v.IsInt64() && v.Int64() < sc.vLim && v.Int64() > -sc.vLim
+	var am int64
+	switch {
+	case sc.gap == 0:
+		am = a.Int64()
+	case a.IsInt64() && a.Int64() < sc.gap:
+		am = a.Int64()
+	default:
+		d := new(big.Int).Sub(sc.q, a) // distance from the top, in units of B
+		if d.IsInt64() && d.Int64() < sc.gap {
+			am = sc.m - d.Int64()
+		} else {
+			am, ok = sc.gap, false // in the gap: not representable
+		}
 	}
-	return a.Int64()*hModel + v.Int64(), true
+	if !ok {
+		return am * sc.h, false
+	}
+	return am*sc.h + v.Int64(), true
 }
 
 // toReal maps a model amount to the real one; ok=false if it has no uint64 image.
-func toReal(m int64) (uint64, bool) {
+func (sc *scale) toReal(m int64) (uint64, bool) {
 	if m < 0 {
 		return 0, false
 	}
-	a := (m + vLimit) >> 28
-	v := m - a*hModel
-	r := new(big.Int).Add(new(big.Int).Mul(big.NewInt(a), hReal), big.NewInt(v))
+	am := (m + sc.vLim) / sc.h
+	v := m - am*sc.h
+	a := big.NewInt(am)
+	if sc.gap != 0 && am >= sc.gap {
+		if am == sc.gap {
+			return 0, false
+		}
+		a = new(big.Int).Sub(sc.q, big.NewInt(sc.m-am))
+	}
+	r := new(big.Int).Add(new(big.Int).Mul(a, sc.b), big.NewInt(v))
 	if r.Sign() < 0 || !r.IsUint64() {
 		return 0, false
 	}
@@ -68,6 +117,7 @@ func toReal(m int64) (uint64, bool) {
 
 type mtEnv struct {
 	c       *chain.Chain
+	sc      *scale
 	users   []string
 	names   map[string]string // bech32 -> account name
 	abs     map[string]string // real id -> abstract name
@@ -93,6 +143,7 @@ func usersIn(beh []chain.M, fields ...string) int {
 
 func newMtEnv(fl *drv.Flags, minUsers int) *mtEnv {
 	e := &mtEnv{names: map[string]string{}, abs: map[string]string{}, realID: map[string]string{}}
+	e.sc = newScale(int(fl.CfgInt("base", 63)))
 	n := int(fl.CfgInt("users", 3))
 	if minUsers > n {
 		n = minUsers
@@ -153,7 +204,7 @@ func (e *mtEnv) real(name string) string {
 }
 
 func (e *mtEnv) amt(x uint64, inexact *int) int64 {
-	v, ok := toModel(x)
+	v, ok := e.sc.toModel(x)
 	if !ok {
 		*inexact++
 	}
@@ -267,7 +318,7 @@ func (e *mtEnv) project(ctx sdk.Context) any {
 		}()
 		_, broken = mtkeeper.SupplyInvariant(k)(ctx)
 	}()
-	return chain.M{"maxU": maxUM, "seqD": int64(k.GetDenomSequence(ctx)), "seqM": int64(k.GetMTSequence(ctx)),
+	return chain.M{"maxU": e.sc.maxUM, "base": int64(e.sc.base), "hunit": e.sc.h, "seqD": int64(k.GetDenomSequence(ctx)), "seqM": int64(k.GetMTSequence(ctx)),
 		"cls": cls, "mts": mts, "supC": supC, "bal": bal, "inexact": int64(inexact), "invBroken": broken}
 }
 
@@ -292,7 +343,7 @@ func (e *mtEnv) msgOf(ev chain.M) sdk.Msg {
 		to = e.addr(to)
 	}
 	c, id := e.real(chain.Str(ev, "cls")), e.real(chain.Str(ev, "id"))
-	amt, ok := toReal(chain.Num(ev, "amt"))
+	amt, ok := e.sc.toReal(chain.Num(ev, "amt"))
 	if !ok {
 		return nil
 	}
@@ -344,7 +395,7 @@ func (e *mtEnv) runBlock(pending []chain.M, w *chain.TraceWriter) {
 		r := res.Txs[i]
 		ev["ok"], ev["panic"] = r.OK, r.Panic
 		// the real uint64 amount, as a decimal string (for readers and a big-number tier)
-		if ra, ok := toReal(chain.Num(ev, "amt")); ok {
+		if ra, ok := e.sc.toReal(chain.Num(ev, "amt")); ok {
 			ev["amtReal"] = fmt.Sprintf("%d", ra)
 		}
 		if r.OK {
@@ -455,7 +506,13 @@ func mtRandom(fl *drv.Flags, rng *rand.Rand, w *chain.TraceWriter) {
 	e := newMtEnv(fl, 0)
 	e.start(w)
 	pick := func(l []string) string { return l[rng.Intn(len(l))] }
-	bigs := []int64{hModel, hModel - 1, hModel + 1, maxUM, maxUM - 1, maxUM - 5}
+	hModel, maxUM := e.sc.h, e.sc.maxUM
+	// boundary amounts: one unit of the base and its neighbours, a few units with low
+	// bits, the top of the range (low bits non-zero throughout)
+	bigs := []int64{hModel, hModel - 1, hModel + 1, maxUM, maxUM - 1, maxUM - 5, hModel + 7}
+	if e.sc.m > 2 {
+		bigs = append(bigs, 2*hModel-3, 3*hModel+5, maxUM-hModel-2)
+	}
 	for b := 0; b < fl.Len; b++ {
 		var pending []chain.M
 		cls := e.last["cls"].(chain.M)
@@ -595,7 +652,7 @@ func mtRandom(fl *drv.Flags, rng *rand.Rand, w *chain.TraceWriter) {
 		}
 		var ok []chain.M
 		for _, ev := range pending {
-			if a := chain.Num(ev, "amt"); a < 0 || a > maxUM {
+			if a := chain.Num(ev, "amt"); a < 0 || a > e.sc.maxUM {
 				continue
 			}
 			if e.msgOf(ev) != nil {
